@@ -224,3 +224,29 @@ def pool_sites():
                                     ctx_ = "try-body"
                         out.append({"file": rel, "function": qual, "call": s, "context": ctx_})
     return out
+
+
+def jit_frozen_globals():
+    """module-level names that some function rebinds (`global X` + assignment) and that a Numba-compiled function reads:
+    Numba treats a global read inside an njit function as a compile-time constant, the interpreter looks it up on every
+    call - so after a rebinding the compiled and the interpreted kernel compute with different values"""
+    out = []
+    for rel, path in source_files():
+        tree = ast.parse(open(path).read())
+        rebound = set()
+        for qual, node in iter_functions(tree):
+            for n in ast.walk(node):
+                if isinstance(n, ast.Global):
+                    rebound.update(n.names)
+        if not rebound:
+            continue
+        for qual, node in iter_functions(tree):
+            if not any("njit" in ast.unparse(d) for d in node.decorator_list):
+                continue
+            local = {a.arg for a in node.args.args} | {t.id for n in ast.walk(node) if isinstance(n, ast.Assign) for t in n.targets if isinstance(t, ast.Name)}
+            for n in ast.walk(node):
+                if isinstance(n, ast.Name) and isinstance(n.ctx, ast.Load) and n.id in rebound and n.id not in local:
+                    setters = [q for q, fnode in iter_functions(tree) if "." not in q and len(fnode.args.args) == 1
+                               and any(isinstance(g, ast.Global) and n.id in g.names for g in ast.walk(fnode))]
+                    out.append({"file": rel, "function": qual, "global": n.id, "setters": setters})
+    return out
